@@ -44,8 +44,11 @@ func (l *SyncList[T]) Push(value T) {
 
 		if next == nil && atomic.CompareAndSwapPointer(&tailNode.next, next, node) {
 			// atomic.CompareAndSwapPointer(&l.tail, tail, node)
-			atomic.StorePointer(&l.tail, node)
+			// count the element before publishing it through tail: once tail points
+			// at the node a concurrent Pop may remove it and decrement len, so the
+			// opposite order lets Len() drop below the poppable count (even to -1).
 			atomic.AddInt64(&l.len, 1)
+			atomic.StorePointer(&l.tail, node)
 			return
 		}
 
